@@ -36,12 +36,14 @@ class Step:
         self.filter_depth_delta: Any = None
         self.stack_ops: List[str] = []
         self.skipped_blank = False
+        self.func_after: Any = None  # function-call paren counters after the step
+        self.brackets_after: Any = None  # opening brackets still open after the step
 
     def show(self) -> Dict[str, Any]:
         return {k: v for k, v in self.__dict__.items() if v not in (None, [], {}, "", False)}
 
 
-def lexer_iteration(model: Model, state: str, filter_depth: int = 0, in_function: bool = False, bracket_top: Optional[str] = None) -> List[Step]:
+def lexer_iteration(model: Model, state: str, filter_depth: int = 0, in_function: Any = False, bracket_top: Optional[str] = None) -> List[Step]:
     lexmod = model.module("lex")
     lci = model.cls("lex.Lexer")
     if state not in lexmod.functions and state not in lexmod.assigns:
@@ -57,7 +59,7 @@ def lexer_iteration(model: Model, state: str, filter_depth: int = 0, in_function
         lx.attrs["start"] = p
         lx.attrs["filter_depth"] = Const(filter_depth)
         if in_function:
-            lx.attrs["func_call_stack"] = it.new_list([Const(1)])
+            lx.attrs["func_call_stack"] = it.new_list([Const(int(in_function))])
         if bracket_top:
             lx.attrs["bracket_stack"] = it.new_list([PyTuple((Const(bracket_top), Const(0)))])
         st = it.module_global(lexmod, state)
@@ -147,6 +149,21 @@ def lexer_iteration(model: Model, state: str, filter_depth: int = 0, in_function
         if isinstance(fd, Const):
             s.filter_depth_delta = fd.value - filter_depth
         s.skipped_blank = any(pat_is_blank(pt) and m for pt, m, off in s.regex if off == 0)
+        fs = lx.attrs.get("func_call_stack")
+        if isinstance(fs, PyList):
+            s.func_after = [x.value if isinstance(x, Const) else describe(x) for x in fs.items]
+        bs = lx.attrs.get("bracket_stack")
+        if isinstance(bs, PyList):
+            def _br(x: Any) -> Any:
+                if isinstance(x, PyTuple) and x.items:
+                    c0 = x.items[0]
+                    if isinstance(c0, Const):
+                        return c0.value
+                    if isinstance(c0, SymChar) and ctx.char_fixed.get(c0.id) is not None:
+                        return ctx.char_fixed[c0.id]
+                return describe(x)
+
+            s.brackets_after = [_br(x) for x in bs.items]
         out.append(s)
     return out
 
@@ -337,3 +354,123 @@ def check_blank_positions(model: Model, report: Any, rule: str, side: str) -> No
                 report.ok(rule, "lex.lex_root", "only '$' starts a query")
         except Unsupported as err:
             report.undecided(rule, "lex.lex_segment", str(err))
+
+
+# --------------------------------------------------------------- transitions
+def _first(s: Step) -> Optional[str]:
+    return s.prefix[0] if s.prefix else None
+
+
+def check_transitions(model: Model, report: Any, rule: str) -> None:
+    """State transitions and bracket / function-call bookkeeping of the lexer, per generic iteration.
+
+    Expected behaviour is stated in terms of the grammar's structure: which state scans what follows a
+    lexeme, when a filter ends, and how parentheses of function calls and groups are matched."""
+    F, B, SEG = "lex_inside_filter", "lex_inside_bracketed_segment", "lex_segment"
+
+    def run(state: str, **kw: Any) -> Optional[List[Step]]:
+        try:
+            return [s for s in lexer_iteration(model, state, **kw) if not s.skipped_blank]
+        except Unsupported as err:
+            report.undecided(rule, f"lex.{state}", str(err))
+            return None
+
+    def expect(state: str, cfg: str, steps: List[Step], what: str, pred: Any, check: Any) -> None:
+        site = f"lex.{state}"
+        key = f"transition:{state}:{cfg}:{what}"
+        cands = [s for s in steps if pred(s)]
+        if not cands:
+            report.fail(rule, site, key, f"{what}: no path of {state} handles this input ({cfg})")
+            return
+        for s in cands:
+            p = check(s)
+            if p:
+                report.fail(rule, site, key, f"{what} ({cfg}): {p}; step = {s.show()}")
+                return
+        report.ok(rule, site, key)
+
+    # ---- inside a filter
+    for cfg, kw in (
+        ("in-brackets", dict(filter_depth=1, bracket_top="[")),
+        ("in-group", dict(filter_depth=1, bracket_top="(")),
+        ("in-call", dict(filter_depth=1, bracket_top="(", in_function=1)),
+        ("in-call-nested-paren", dict(filter_depth=1, bracket_top="(", in_function=2)),
+    ):
+        steps = run(F, **kw)
+        if steps is None:
+            continue
+        func0 = [] if not kw.get("in_function") else [int(kw["in_function"])]
+        top = kw["bracket_top"]
+        # ']' ends the filter and is left for the bracketed-segment state
+        expect(F, cfg, steps, "']'", lambda s: _first(s) == "]", lambda s: None if (s.next_state == B and s.filter_depth_delta == -1 and s.consumed == 0 and not s.tokens and not s.error) else "']' must end the filter (depth-1), stay unconsumed and return to the bracketed segment")
+        # ','
+        if func0:
+            expect(F, cfg, steps, "',' inside a call", lambda s: _first(s) == ",", lambda s: None if ([t[0] for t in s.tokens] == ["COMMA"] and s.next_state == F and s.filter_depth_delta == 0 and s.func_after == func0) else "a comma between function arguments must emit COMMA and stay in the filter")
+        else:
+            expect(F, cfg, steps, "',' outside a call", lambda s: _first(s) == ",", lambda s: None if ([t[0] for t in s.tokens] == ["COMMA"] and s.next_state == B and s.filter_depth_delta == -1) else "a comma outside a function call ends the filter selector (COMMA, depth-1, back to the bracketed segment)")
+        # '('
+        want_f = [func0[0] + 1] if func0 else []
+        expect(F, cfg, steps, "'('", lambda s: _first(s) == "(", lambda s, want_f=want_f: None if ([t[0] for t in s.tokens] == ["LPAREN"] and s.next_state == F and s.brackets_after is not None and s.brackets_after[-2:] == [top, "("] and s.func_after == want_f) else f"'(' must emit LPAREN, be recorded as open, and count towards the enclosing call (expected call counters {want_f})")
+        # ')'
+        if top == "(":
+            want_f2 = [] if func0 == [1] else ([func0[0] - 1] if func0 else [])
+            expect(F, cfg, steps, "')'", lambda s: _first(s) == ")" and not s.error, lambda s, want_f2=want_f2: None if ([t[0] for t in s.tokens] == ["RPAREN"] and s.next_state == F and s.brackets_after == [] and s.func_after == want_f2) else f"')' must emit RPAREN, close the open parenthesis and update the call counters to {want_f2}")
+        else:
+            expect(F, cfg, steps, "unbalanced ')'", lambda s: _first(s) == ")", lambda s: None if (s.error and not s.tokens) else "')' without an open '(' must be an error")
+        for ch, tok in (("$", "ROOT"), ("@", "CURRENT")):
+            expect(F, cfg, steps, f"'{ch}'", lambda s, ch=ch: _first(s) == ch, lambda s, tok=tok: None if ([t[0] for t in s.tokens] == [tok] and s.next_state == SEG) else f"must emit {tok} and continue with the segments of the embedded query")
+        expect(F, cfg, steps, "'.'", lambda s: _first(s) == ".", lambda s: None if (s.next_state == SEG and s.consumed == 0 and not s.tokens) else "'.' must be left for the segment state")
+        for q, alias in (("'", "lex_single_quoted_string_inside_filter_expression"), ('"', "lex_double_quoted_string_inside_filter_expression")):
+            expect(F, cfg, steps, f"quote {q}", lambda s, q=q: _first(s) == q, lambda s, alias=alias: None if (s.next_state == alias and not s.tokens) else f"must continue in {alias}")
+        # function call: name immediately followed by '('
+        fsteps = [s for s in steps if any(t[0] == "FUNCTION" for t in s.tokens)]
+        if not fsteps:
+            report.fail(rule, f"lex.{F}", f"transition:{F}:{cfg}:function", "no path emits a FUNCTION token")
+        else:
+            bad = None
+            for s in fsteps:
+                if s.next_state != F or s.func_after != func0 + [1] or not s.brackets_after or s.brackets_after[-1] != "(":
+                    bad = f"a function name followed by '(' must emit FUNCTION, open a call (counter 1) and record the '(' as open; step = {s.show()}"
+            if bad:
+                report.fail(rule, f"lex.{F}", f"transition:{F}:{cfg}:function", bad)
+            else:
+                report.ok(rule, f"lex.{F}", f"transition:{F}:{cfg}:function")
+        expect(F, cfg, steps, "end of input", lambda s: s.at_end, lambda s: None if s.error else "end of input inside a filter must be an error")
+    # ---- inside a bracketed segment
+    for cfg, kw in (("top-[", dict(filter_depth=0, bracket_top="[")), ("top-(", dict(filter_depth=0, bracket_top="("))):
+        steps = run(B, **kw)
+        if steps is None:
+            continue
+        if kw["bracket_top"] == "[":
+            expect(B, cfg, steps, "']'", lambda s: _first(s) == "]" and not s.error, lambda s: None if ([t[0] for t in s.tokens] == ["RBRACKET"] and s.next_state == SEG and s.brackets_after == []) else "']' must emit RBRACKET, close the bracket and continue with the next segment")
+            expect(B, cfg, steps, "'?'", lambda s: _first(s) == "?", lambda s: None if ([t[0] for t in s.tokens] == ["FILTER"] and s.next_state == F and s.filter_depth_delta == 1) else "'?' must emit FILTER and enter the filter state (depth+1)")
+            for q, alias in (("'", "lex_single_quoted_string_inside_bracket_segment"), ('"', "lex_double_quoted_string_inside_bracket_segment")):
+                expect(B, cfg, steps, f"quote {q}", lambda s, q=q: _first(s) == q, lambda s, alias=alias: None if (s.next_state == alias and not s.tokens) else f"must continue in {alias}")
+            expect(B, cfg, steps, "end of input", lambda s: s.at_end, lambda s: None if s.error else "end of input inside brackets must be an error")
+        else:
+            expect(B, cfg, steps, "mismatched ']'", lambda s: _first(s) == "]", lambda s: None if (s.error and not s.tokens) else "']' while a '(' is open must be an error")
+    # ---- between segments
+    for cfg, kw in (("top-level", dict(filter_depth=0)), ("in-filter", dict(filter_depth=1, bracket_top="["))):
+        steps = run(SEG, **kw)
+        if steps is None:
+            continue
+        expect(SEG, cfg, steps, "'..'", lambda s: s.prefix.startswith(".."), lambda s: None if ([t[0] for t in s.tokens] == ["DOUBLE_DOT"] and s.next_state == "lex_descendant_segment") else "'..' must emit DOUBLE_DOT and scan a descendant selector")
+        expect(SEG, cfg, steps, "'.'", lambda s: s.prefix == "." and s.consumed == 1, lambda s: None if (s.next_state == "lex_shorthand_selector" and not s.tokens) else "'.' must be followed by the shorthand selector state")
+        expect(SEG, cfg, steps, "'['", lambda s: _first(s) == "[", lambda s: None if ([t[0] for t in s.tokens] == ["LBRACKET"] and s.next_state == B and s.brackets_after and s.brackets_after[-1] == "[") else "'[' must emit LBRACKET, be recorded as open and enter the bracketed segment")
+        others = [s for s in steps if not s.prefix and not s.at_end]
+        if kw["filter_depth"]:
+            ok = others and all(s.next_state == F and s.consumed in (0, None) and not s.tokens for s in others)
+            (report.ok if ok else report.fail)(*((rule, f"lex.{SEG}", f"transition:{SEG}:{cfg}:other") if ok else (rule, f"lex.{SEG}", f"transition:{SEG}:{cfg}:other", "inside a filter any other character must be left for the filter state")))
+        else:
+            ok = others and all(s.error for s in others)
+            (report.ok if ok else report.fail)(*((rule, f"lex.{SEG}", f"transition:{SEG}:{cfg}:other") if ok else (rule, f"lex.{SEG}", f"transition:{SEG}:{cfg}:other", "at top level any other character after a segment must be an error")))
+        expect(SEG, cfg, steps, "end of input", lambda s: s.at_end, lambda s: None if ([t[0] for t in s.tokens] == ["EOF"] and s.next_state is None and not s.error) else "end of input after a segment must emit EOF and stop")
+    for st in ("lex_descendant_segment", "lex_shorthand_selector"):
+        steps = run(st)
+        if steps is None:
+            continue
+        expect(st, "-", steps, "'*'", lambda s: _first(s) == "*", lambda s: None if ([t[0] for t in s.tokens] == ["WILD"] and s.next_state == SEG) else "'*' must emit WILD and continue with the next segment")
+        expect(st, "-", steps, "name", lambda s: any(t[0] == "PROPERTY" for t in s.tokens), lambda s: None if s.next_state == SEG else "a shorthand name must be followed by the segment state")
+        if st == "lex_descendant_segment":
+            expect(st, "-", steps, "'['", lambda s: _first(s) == "[", lambda s: None if ([t[0] for t in s.tokens] == ["LBRACKET"] and s.next_state == B and s.brackets_after == ["["]) else "'..[' must emit LBRACKET, record it and enter the bracketed segment")
+            expect(st, "-", steps, "end of input", lambda s: s.at_end, lambda s: None if s.error or s.raised else "a bald '..' must be an error")
